@@ -476,6 +476,88 @@ func c09(r *core.Report) {
 	r.Rule("C09-COMPLETE", "assembly/delivery only after the completion test; the test covers every part", 5)
 	ruleComplete(r, "C09-COMPLETE")
 
+	// ---- C09-QUEUE-WHOLE (after seed C09-s7): vswarm/memswarm report the configured MTU and hand every Tell up to
+	// that size to swarmutil.Queue. The queue keeps a message in a recycled slot: whatever is stored as a slot's
+	// payload is built by a growing append (append / p2p.VecBytes) from length 0 — or is the emptying of the slot —
+	// never a copy into the slot's existing capacity, which silently keeps only what fits.
+	r.Rule("C09-QUEUE-WHOLE", "a payload stored into a swarmutil queue slot is built by a growing append from length 0 (no copy into the slot's fixed capacity)", 3)
+	{
+		nq := 0
+		// capFull: every slot is created with the capacity of the very value recorded as the queue's mtu; then a
+		// copy into the capacity holds every message up to the MTU and only the growing form is optional
+		capFull := false
+		if nqf := needFn(r, "s/swarmutil", "NewQueue"); nqf != nil {
+			var mtuVal ssa.Value
+			var caps []ssa.Value
+			for _, in := range core.AllInstrs(nqf) {
+				switch x := in.(type) {
+				case *ssa.Store:
+					if f, _ := core.FieldOfAddr(x.Addr); f != nil && f.Name() == "mtu" {
+						mtuVal = x.Val
+					}
+				case *ssa.MakeSlice:
+					if isByteSliceT(x.Type()) {
+						caps = append(caps, x.Cap)
+					}
+				}
+			}
+			capFull = mtuVal != nil && len(caps) > 0
+			for _, c := range caps {
+				if c != mtuVal {
+					capFull = false
+				}
+			}
+		}
+		for _, fn := range p.ModFuncs {
+			if fn.Pkg == nil || !strings.HasSuffix(fn.Pkg.Pkg.Path(), "s/swarmutil") {
+				continue
+			}
+			for _, in := range core.AllInstrs(fn) {
+				st, ok := in.(*ssa.Store)
+				if !ok {
+					continue
+				}
+				f, _ := core.FieldOfAddr(st.Addr)
+				if f == nil || f.Name() != "Payload" || f.Pkg() == nil || f.Pkg().Path() != core.ModPath {
+					continue
+				}
+				nq++
+				r.Analysed(fn)
+				good := false
+				switch x := core.Peel(st.Val).(type) {
+				case *ssa.Call:
+					nm := core.CalleeName(x.Common())
+					grows := core.IsBuiltin(x.Common(), "append") || strings.HasSuffix(nm, ".VecBytes")
+					if grows && len(x.Call.Args) > 0 {
+						if sl, isS := x.Call.Args[0].(*ssa.Slice); isS && sl.High != nil {
+							if k, isK := core.ConstInt(sl.High); isK && k == 0 {
+								good = true
+							}
+						}
+					}
+				case *ssa.Slice:
+					if x.High != nil {
+						if k, isK := core.ConstInt(x.High); isK && k == 0 {
+							good = true // emptying the slot
+						}
+					}
+				case *ssa.MakeSlice:
+					if k, isK := core.ConstInt(x.Len); isK && k == 0 {
+						good = true // a fresh, empty slot
+					}
+				case *ssa.Const:
+					good = x.IsNil()
+				}
+				if _, isMk := core.Peel(st.Val).(*ssa.MakeSlice); !good && !isMk && capFull {
+					r.OK("C09-QUEUE-WHOLE", core.FnName(fn)+" store Payload", p.Pos(st.Pos()), "not a growing append, but every slot has the capacity of the queue's mtu: every message within the MTU fits")
+					continue
+				}
+				r.Check(good, "C09-QUEUE-WHOLE", core.FnName(fn)+" store Payload", p.Pos(st.Pos()), "built by append/VecBytes onto payload[:0], or emptied", "the slot's payload is not built by a growing append from length 0: a message larger than the slot's capacity (but within the MTU the swarm reports) is stored short and delivered truncated")
+			}
+		}
+		_ = nq
+	}
+
 	// ---- C09-RECV-LIMIT
 	r.Rule("C09-RECV-LIMIT", "a read bounded by the MTU rejects an oversize message instead of delivering its prefix", 1)
 	h := resolveHubs(r)
